@@ -487,7 +487,7 @@ pub fn run_case(ctx: &mut Ctx, target: Target, fmt: Fmt, comp: Comp, set: &Set) 
 						s
 					}),
 					Target::T => std::fs::read(&path).map_err(|e| e.to_string()).and_then(|b| parse_tar(&b)).map(|es| {
-						let names: Vec<Vec<u8>> = es.into_iter().filter(|e| e.typeflag == b'0' || e.typeflag == 0).map(|e| e.name).filter(|n| !matches!(classify_name(&String::from_utf8_lossy(n)), NameClass::Meta(_))).collect();
+						let names: Vec<Vec<u8>> = es.into_iter().filter(|e| e.typeflag == b'0' || e.typeflag == 0).map(|e| e.name).collect();
 						let mut s = format!("ok {}", names.len());
 						for n in names {
 							s.push(' ');
@@ -496,7 +496,7 @@ pub fn run_case(ctx: &mut Ctx, target: Target, fmt: Fmt, comp: Comp, set: &Set) 
 						s
 					}),
 					_ => list_dir(&path).map(|fs| {
-						let mut names: Vec<Vec<u8>> = fs.into_iter().map(|(n, _)| n).filter(|n| !matches!(classify_name(n), NameClass::Meta(_))).map(|n| n.into_bytes()).collect();
+						let mut names: Vec<Vec<u8>> = fs.into_iter().map(|(n, _)| n).map(|n| n.into_bytes()).collect();
 						names.sort();
 						let mut s = format!("ok {}", names.len());
 						for n in names {
